@@ -29,7 +29,8 @@ let () =
       let nums = List.filter (fun x -> x <> "") (String.split_on_char ' ' rs) in
       let rec pairs = function a :: b :: r -> (n_of_int (ios a), n_of_int (ios b)) :: pairs r | _ -> [] in
       utable := !utable @ [(bytes_of name, pairs nums)]
-    | ["T"; x; orig; osexp; shown] -> incr tv; (try check_tv x orig osexp shown with Failure m -> report "model" ("x=" ^ x ^ " og=" ^ osexp) ("runner failure: " ^ m) "")
+    | "T" :: x :: orig :: osexp :: shown :: rest ->
+      incr tv; (try check_tv ~text:(String.concat " " rest) x orig osexp shown with Failure m -> report "model" ("x=" ^ x ^ " og=" ^ osexp) ("runner failure: " ^ m) "")
     | "TE" :: x :: osexp :: msg :: rest ->
       incr tv; incr unread;
       report "read" (Printf.sprintf "x=%s og=%s g=%s" x osexp (String.concat " " rest)) msg "a Rust file made of the shapes of generator.rs"
